@@ -457,7 +457,8 @@ VM_CHOICES = {
     "vm3": ["only Ubuntu\n", "only Ubuntu\n", "only Kali\n", ""],
 }
 NETS = ["net1", "net1 net2", "net1 net2 net3", "net0", "net3 net4", "net3 net4 net5", "cluster1.net6 cluster1.net7",
-        "cluster1.net6 cluster2.net6", "net1 cluster1.net6", "cluster1.net7 cluster2.net9", "net2 net5"]
+        "cluster1.net6 cluster2.net6", "net1 cluster1.net6", "cluster1.net7 cluster2.net9", "net2 net5",
+        "net5 net1", "net5 net4 net3", "cluster2.net9 cluster1.net6"]
 
 
 @st.composite
@@ -616,6 +617,7 @@ def excluded_by_restrictions(ex):
 
 REGRESSION_INPUTS = {
     "C06": [
+        {"tests": "normal..tutorial1", "vm_strs": {"vm1": "", "vm2": "only Win10\n", "vm3": "only Ubuntu\n"}, "nets": "net5 net1", "lazy": False},
         {"tests": "normal..tutorial3", "vm_strs": {"vm1": "only Fedora\n", "vm2": "only Win10\n", "vm3": "only Ubuntu\n"}, "nets": "net1", "lazy": False},
         {"tests": "leaves..tutorial_get..explicit_noop,normal..tutorial_gui..client_noop", "vm_strs": {"vm1": "only CentOS\n", "vm2": "only Win10\n", "vm3": "only Ubuntu\n"}, "nets": "net1", "lazy": True},
         {"tests": "leaves..tutorial_finale", "vm_strs": {"vm1": "only CentOS\n", "vm2": "only Win10\n", "vm3": ""}, "nets": "net1 net2", "lazy": False},
@@ -627,6 +629,7 @@ REGRESSION_INPUTS = {
         {"tests": "leaves..tutorial_finale", "vm_strs": {"vm1": "only CentOS\n", "vm2": "only Win10\n", "vm3": ""}, "nets": "net1", "lazy": False},
     ],
     "C09": [
+        {"tests": "normal..tutorial1", "vm_strs": {"vm1": "", "vm2": "only Win10\n", "vm3": "only Ubuntu\n"}, "nets": "net5 net1", "lazy": False},
         {"tests": "leaves..tutorial_gui", "vm_strs": {"vm1": "only qemu_kvm_centos\n", "vm2": "only Win10\n", "vm3": "only Ubuntu\n"}, "nets": "net1 net2", "lazy": True},
         {"tests": "leaves..tutorial_get", "vm_strs": {"vm1": "only CentOS\n", "vm2": "only Win10\n", "vm3": "only Ubuntu\n"}, "nets": "net1 net2", "lazy": True},
     ],
